@@ -310,6 +310,45 @@ def two_gateways(ck):
     ck.case(canon=("two-gateways", "deny"), nontrivial=True)
 
 
+def wireless_three(ck):
+    """three wireless routers on one frequency, a host behind each: every ordered pair must ping with cold and warm ARP (a
+    broadcast over the air has to reach every access point on the frequency, not just the first)."""
+    z = {"start_up_duration": 0, "shut_down_duration": 0}
+    nodes, links = [], []
+    for i in (1, 2, 3):
+        nodes.append(dict(type="computer", hostname="pc%d" % i, ip_address="192.168.%d.2" % (10 * i), subnet_mask="255.255.255.0", default_gateway="192.168.%d.1" % (10 * i), **z))
+        nodes.append({"type": "wireless-router", "hostname": "wr%d" % i, "start_up_duration": 0,
+                      "router_interface": {"ip_address": "192.168.%d.1" % (10 * i), "subnet_mask": "255.255.255.0"},
+                      "wireless_access_point": {"ip_address": "192.168.1.%d" % i, "subnet_mask": "255.255.255.0", "frequency": "WIFI_2_4"},
+                      "acl": {1: {"action": "PERMIT"}},
+                      "routes": [{"address": "192.168.%d.0" % (10 * j), "subnet_mask": "255.255.255.0", "next_hop_ip_address": "192.168.1.%d" % j, "metric": 0}
+                                 for j in (1, 2, 3) if j != i]})
+        links.append({"endpoint_a_hostname": "pc%d" % i, "endpoint_a_port": 1, "endpoint_b_hostname": "wr%d" % i, "endpoint_b_port": 2})
+    cfg = {"io_settings": dict(world.IO_OFF), "game": {"max_episode_length": 64, "ports": ["ARP"], "protocols": ["ICMP", "TCP", "UDP"]},
+           "agents": [], "simulation": {"network": {"nodes": nodes, "links": links}}}
+    ctx = {"topology": "three wireless routers wr1..wr3 on WIFI_2_4 (192.168.1.x), a host pc_i on 192.168.(10i).0/24 behind each, static routes both ways"}
+    try:
+        game = world.make_game(cfg)
+        game.setup_for_episode(0)
+    except Exception as e:
+        ck.violation("wireless-topology-does-not-load:%s" % type(e).__name__, "the three-router wireless scenario raised %r at load" % (e,), ctx)
+        return
+    hosts = {n.config.hostname: n for n in game.simulation.network.nodes.values() if n.config.hostname.startswith("pc")}
+    for rnd in ("cold", "warm"):
+        for a in ("pc1", "pc2", "pc3"):
+            for b in ("pc3", "pc2", "pc1"):
+                if a == b:
+                    continue
+                game.pre_timestep()
+                ok = hosts[a].ping(str(hosts[b].network_interface[1].ip_address))
+                ck.case(canon=("wireless-three", rnd, a, b), nontrivial=True)
+                ck.evaluations += 1
+                if not ok:
+                    ck.violation("permitted-ping-failed:wireless", "%s: ping %s -> %s failed although every device is on and permits it (%s ARP)"
+                                 % (ctx["topology"], a, b, rnd), dict(ctx, src=a, dst=b, phase=rnd))
+                    return
+
+
 def run(ck):
     ck.rule = ("(a) route tables over a covering set of overlapping prefixes (/8 /12 /16 /24 /25 /32, unmasked addresses), metrics incl. ties, with and "
                "without default route x a fixed destination set: find_best_route vs the model and vs a longest-prefix/lowest-metric oracle, "
@@ -363,6 +402,7 @@ def run(ck):
         topo_case(ck, ck.seed + k, toggles=ck.n(2, 6))
     looped_l2(ck)
     two_gateways(ck)
+    wireless_three(ck)
 
 
 def replay(ck, path):
